@@ -3,7 +3,8 @@ import regen
 
 THEOREMS = {
     "Dawgs.Props.C08": [
-        "Dawgs.C08.Props.context_protocol_as_modelled", "Dawgs.C08.Props.error_reporting_as_modelled", "Dawgs.C08.Props.accessor_chains_guarded", "Dawgs.C08.Props.table_shape", "Dawgs.C08.Props.table_balanced",
+        "Dawgs.C08.Props.context_protocol_as_modelled", "Dawgs.C08.Props.error_reporting_as_modelled", "Dawgs.C08.Props.accessor_chains_guarded", "Dawgs.C08.Props.errors_never_lost", "Dawgs.C08.Props.outcome_ok_iff",
+        "Dawgs.C08.Props.int_literal_out_of_range_rejected", "Dawgs.C08.Props.int_literal_errors_sample", "Dawgs.C08.Props.table_shape", "Dawgs.C08.Props.table_balanced",
         "Dawgs.C08.Props.filters_inert", "Dawgs.C08.Props.listener_no_panic", "Dawgs.C08.Props.listener_no_panic_derivable",
         "Dawgs.C08.Props.listener_no_panic_recovered_partial", "Dawgs.C08.Props.listener_linear", "Dawgs.C08.Props.current_part_as_modelled", "Dawgs.C08.Props.parts_table_safe", "Dawgs.C08.Props.multipart_index_in_range",
         "Dawgs.C08.Props.never_nilnil_partial", "Dawgs.C08.Props.root_chain_ok", "Dawgs.C08.Props.never_nilnil",
@@ -138,6 +139,53 @@ def finding_key(suite, ops, line, msg):
     return "C08:ParseCypher:" + kind
 
 
+# clause of the statement (properties.jsonl) -> what proves it for ALL inputs (with hypotheses), or "searched only" / "tie only"
+CLAUSES = {
+    "for any byte string parsing terminates within time and memory polynomial in the input length":
+        "SEARCHED ONLY for lexing / ALL(*) prediction / tree construction / Go allocation (10 size-doubling families, fitted exponent in the evidence; slow parses "
+        "re-measured). PROVED for the listener part: listener_linear (for EVERY tree at most (#filters+4) callbacks and stack operations per node, steps <= 4*size; "
+        "hence the visitor stack never exceeds 4*size+1 frames — no separate depth theorem).",
+    "returns either a model with no error or a non-nil error, never both nil":
+        "PROVED at tree level: errors_never_lost / outcome_ok_iff (any recorded error => outcome err under both contexts, for EVERY tree; `ok` iff nothing recorded) "
+        "and never_nilnil (HYPOTHESES: root oC_Cypher, tree follows the regenerated grammar (wf), syntactically complete (conforms), no error under the "
+        "filter/unsupported-rule error model E; from the chain certificate root_chain_ok) with never_nilnil_partial (any tree: T.reaches t -> model non-nil). Trees with "
+        "recognition errors return err by errors_never_lost. The table before the CALL repair is refuted (never_nilnil_refuted_old).",
+    "never panics":
+        "PROVED for the listener PROTOCOL on EVERY rule-labelled tree (grammatical, recovered, with error nodes, arbitrary): listener_no_panic, outcome_not_panic, "
+        "listener_no_panic_derivable, listener_no_panic_recovered_partial — from the decidable table condition table_balanced (+ table_shape, filters_inert, "
+        "context_protocol_as_modelled); Parts / partIdx bookkeeping: multipart_index_in_range (parts_table_safe, current_part_as_modelled). Accessor-nil pattern "
+        "inside method bodies: accessor_chains_guarded (no `<ctx>.A().M()` on a single-child accessor; extracted list = []). Other panics inside method bodies "
+        "(assertions on model values, slicing — cf. newUnsupportedRuleError in error_reporting_as_modelled) and inside ANTLR: SEARCHED ONLY (every input parsed "
+        "under recover with both contexts; render-after-parse must not panic).",
+    "never returns a partially built model without an error":
+        "SEARCHED ONLY beyond non-nil-ness: never_nilnil proves the ROOT product is set; completeness below the root (mandatory fields, non-empty mandatory lists, typed "
+        "nils in interface slots, nil list elements / map values) is the reflection oracle of harness/c08.go on every accepted parse, plus the Lean `empty=[...]` "
+        "report of visitor products popped without having been touched. Integer literals: int_literal_out_of_range_rejected (a tree containing an integer literal "
+        "outside 0..2^63-1 or not decimal is never accepted, no wrapped value), tied per case by the big-integer value oracle.",
+    "empty and whitespace-only inputs are rejected":
+        "PROVED: empty_rejected (for every input of Go white space only, whatever the parser would do) given empty_guard_present (extracted: ParseCypher returns "
+        "ErrInvalidInput when strings.TrimSpace(input) is empty, parseCypher returns errors.Join(ctx.Errors...)).",
+    "errors are reported, not lost (lexer and parser)":
+        "PROVED in the outcome model: errors_never_lost; TIE for 'every ANTLR report is one recorded error': error_reporting_as_modelled (source text of parseCypher — "
+        "context registered on lexer AND parser —, Context.SyntaxError without a guard, AddErrors dropping only nil, newUnsupportedRuleError without slicing, compared "
+        "by the kernel) + per case: recorded = reported by a counting listener of the harness on the raw ANTLR run, and reported > 0 => err.",
+    "searched only (tie)":
+        "that the extracted push / pop / guard table, the Parts table and the error tables are what the Go methods do: outcome class, nil-ness, unsupported / filter "
+        "error multisets and an FNV trace of the visitor stack (+ Parts counters) at every rule entry compared between the real parser (probe filter) and the model on "
+        "the real ANTLR tree, on every generated input (truncations, delimiter edits, nesting, invalid UTF-8, huge literals, token soups, stray characters, numeric "
+        "ranges, multi-byte payloads in unsupported constructs, empty values, dangling sigils). Searched only: time / memory, ANTLR internals, model completeness below "
+        "the root, body-level panics other than the two modelled patterns, older / reused default contexts (probed).",
+    "named assumptions":
+        "antlr.ParseTreeWalker calls EnterEveryRule / children / ExitEveryRule in that order; ANTLR 4 runtime and the generated lexer / parser; tools/extract goext "
+        "(visitors) and grammar.py; reflection read of Context.visitorStack by the probe; errors.Join of a non-empty list is non-nil (Go stdlib); no C08 finding is open "
+        "(the four recorded ones are fixed in /repo).",
+}
+
+
+def extra_coverage(ctx, stats):
+    return {"clause_map": CLAUSES}
+
+
 SPEC = {
     "id": "C08",
     "title": "parsing is total and bounded on arbitrary input",
@@ -152,6 +200,7 @@ SPEC = {
     "nontrivial": nontrivial,
     "finding_key": finding_key,
     "panic_is_violation": False,   # panics are judged by the monitor (key C08:ParseCypher:panic), not twice
+    "extra_coverage": extra_coverage,
     "rule": "cases = empty maps / lists / strings (alone and nested) in EVERY expression position of every clause kind (literal positions, ORDER BY lists, SKIP / LIMIT, WITH … WHERE, UNWIND, comprehensions, CASE, pattern properties, SET = / +=) + dangling sigils (`$`, `$1.5`, `$'x'`, `:`, `.`), operators without an operand, openers without a closer and reserved words as names in the same positions + stray characters (every character the lexer has no rule for, attached to token positions of corpus queries and alone) + numeric literals over the whole double range and around ±2^63 in every literal position + multi-byte / invalid-UTF-8 payloads of 20–200 bytes (more than 64 bytes with fewer than 64 runes included) inside EVERY unsupported construct (rule list read from cypher/frontend at generation time; a rule without a live template is counted in gen.unsupported_rules_without_template) and inside the other error paths (range mini-parser, operator scan, literal errors, filters) + multi-part queries whose parts open with every kind of updating clause (first/middle/last part, with and without reading clauses, closed by WITH/RETURN/nothing) + fixed hostile inputs (empty/whitespace incl. grammar-only whitespace, out-of-range numerals, unterminated strings/comments, "
             "every F6/F7 construct) + truncations of every repository corpus query (every offset thorough; seeded stride quick) + one-delimiter "
             "deletions/duplications/swaps + nesting families (parens, lists, NOT, AND, +, relationship chains, maps) at depths 1..64 (200 thorough) "
@@ -180,7 +229,10 @@ MANIFEST = {
     "category": "proof",
     "technique": "Lean 4 theorem over all rule-labelled trees about an executable model of the listener protocol, instantiated by kernel-checked decide on a push/pop/guard "
                  "table regenerated from cypher/frontend; differential tie (outcome class + visitor-stack trace via a probe filter) on a byte-level fuzz corpus; growth measured by size doubling",
-    "text": "Theorem listener_no_panic: for EVERY rule-labelled tree (grammatical, truncated by ANTLR error recovery, with error nodes, or arbitrary) walking it with the DAWGS listener "
+    "text": "Clause map: evidence coverage.clause_map (lib/props/c08.py CLAUSES). errors_never_lost: for EVERY tree one recorded error (lexer / parser recognition error, filter, unsupported rule, literal "
+            "conversion) makes the outcome an error under both contexts — never (model, nil), never (nil, nil); int_literal_out_of_range_rejected: a tree with an integer literal that is not a decimal digit string "
+            "<= 2^63-1 is never accepted; accessor_chains_guarded: no visitor dereferences the result of a single-child context accessor; error_reporting_as_modelled ties 'every ANTLR report is recorded' to the source text. "
+            "Theorem listener_no_panic: for EVERY rule-labelled tree (grammatical, truncated by ANTLR error recovery, with error nodes, or arbitrary) walking it with the DAWGS listener "
             "(Context.Enter/Exit/EnterEveryRule/ExitEveryRule exactly as written; per visitor type and rule the Enter push / Exit pop-as actions and their guards extracted from the "
             "Go sources) ends without a panic and with the visitor stack back at [QueryVisitor/0]: depth is 0 at every pop, every type assertion on a popped visitor holds, the stack "
             "never underflows. The proof is generic in the table and needs one decidable condition (every EnterOC_r/ExitOC_r pair is either inert or push W under g / pop W under g), "
@@ -193,6 +245,7 @@ MANIFEST = {
             "root is Cypher/Statement/Query/RegularQuery, on which QueryVisitor assigns the result); for the table before the repair it is refuted by the parse tree of `CALL foo.bar()` "
             "(theorem never_nilnil_refuted_old; finding now fixed). The tie parses ~10^3 (quick) hostile inputs under recover "
             "with both contexts and compares class, nil-ness, error multisets and a hash of the visitor stack at every rule entry with the model run on the real ANTLR tree.",
-    "note": "Partial: polynomial time/memory is measured (size doubling, fitted exponent in the evidence), not proved — ANTLR prediction is trusted. Panics that depend on visitor "
-            "fields rather than on the stack protocol are outside the model and covered by search only.",
+    "note": "Partial: polynomial time/memory is measured (size doubling, fitted exponent in the evidence), not proved — ANTLR prediction is trusted. never_nilnil carries the hypotheses wf / conforms / no error "
+            "under the error model E. Completeness of an accepted model below its root (no missing mandatory field, no typed nil) is searched (reflection oracle), not proved. Panics inside method bodies other than the "
+            "stack protocol, the Parts bookkeeping and the accessor-nil pattern are covered by search only. No C08 finding is open.",
 }
